@@ -1532,7 +1532,9 @@ func (s *Store) processLTXStreamFrame(ctx context.Context, frame *LTXStreamFrame
 
 	// Skip frame if it already occurred on this node. This can happen if the
 	// replica node created the transaction and forwarded it to the primary.
-	if hdr.NodeID == s.ID() {
+	// A file this node created but no longer has (its database was replaced by
+	// a snapshot of an earlier position since) must be applied like any other.
+	if hdr.NodeID == s.ID() && db.Pos().TXID >= hdr.MaxTXID {
 		dec := ltx.NewDecoder(src)
 		if err := dec.Verify(); err != nil {
 			return fmt.Errorf("verify duplicate ltx file: %w", err)
